@@ -19,7 +19,7 @@ PROPS_ADD = {
         "engine": "unitsim", "level": "exploration", "budget": {"quick": 15, "thorough": 600},
         "title": "The watermark never passes an unfinished index",
         "technique": "deterministic simulation: 2-4 tasks issue Begin/BeginMany/Done/DoneMany/WaitForMark on a real utils.WaterMark with a 2-8 slot window; seeded scheduler interleaves them at every atomic step; invariants checked after every scheduler step",
-        "rule": "case = seeded op lists for 2-4 tasks + window size + scheduler stickiness; after every scheduler step: DoneUntil monotone, DoneUntil < every begun-and-unfinished index, a returned WaitForMark(i) saw no unfinished index <= i; distinct = distinct event-trace hash (includes the schedule); non-trivial = at least two tasks were inside watermark calls at the same time",
+        "rule": "case = seeded op lists for 2-4 tasks + window size + scheduler stickiness; after every scheduler step: DoneUntil monotone, DoneUntil < every begun-and-unfinished index (for a further Begin of the newest index, issued like the oracle's reader registration while the mark may already stand there: DoneUntil <= it), a returned WaitForMark(i) saw no unfinished index <= i; distinct = distinct event-trace hash (includes the schedule); non-trivial = at least two tasks were inside watermark calls at the same time",
         "level_text": "Seeded search over task interleavings at yield sites placed around every atomic step of the watermark, with a token model (indices whose Begin returned and whose Done was not invoked) as oracle. Right level because the property quantifies over all schedules; the state per run is tiny so tens of thousands of schedules fit the quick tier.",
         "note": "Trusted: the usage discipline encoded in the harness (new indices are begun serialised and increasing, as txn.go and raftstore/peer do; lock-free re-Begin only under a held lower index) and the verif-tag accessors VerifSetWindow/VerifSlot.",
         "design_ref": "7/C32", "assumptions": E2_ASSUME,
@@ -28,7 +28,7 @@ PROPS_ADD = {
     "C20": {
         "engine": "unitsim", "level": "exploration", "budget": {"quick": 15, "thorough": 600},
         "title": "Key latches exclude overlapping requests without deadlock",
-        "technique": "deterministic simulation: 2-4 tasks Acquire/hold/Release (sometimes twice) generated key sets on a real latch.Manager with 1-8 stripes; every stripe acquisition is a scheduling point and a contended stripe a parking point; exclusion, latch ownership and progress checked after every step",
+        "technique": "deterministic simulation: 2-4 tasks Acquire/hold/Release (sometimes twice) generated key sets on a real latch.Manager with 1-8 stripes or the shipped sizes 64/256/512 (keys then drawn from a pool of stripes at power-of-two distances); every stripe acquisition is a scheduling point and a contended stripe a parking point; exclusion, latch ownership and progress checked after every step",
         "rule": "case = seeded key-set patterns (stripe.variant lists with duplicates, empty and colliding keys) for 2-4 tasks + stripe count + scheduler stickiness; after every step: no two holders share a non-empty key, every holder's stripes are still locked, and not every unfinished task waits on a held stripe; distinct = distinct event-trace hash (includes the schedule); non-trivial = some task actually waited on a contended stripe",
         "level_text": "Seeded search over acquisition interleavings with a holder model; deadlock is decided exactly at the explored state (all unfinished tasks wait on held stripes), exclusion by comparing holders' key sets. Right level because the property quantifies over all key sets and schedules; the state is tiny, so tens of thousands of schedules fit the quick tier.",
         "note": "Trusted: the holder bookkeeping of the harness and the interpretation that sharing is evaluated over non-empty keys (empty keys are generated but latch nothing by design of Acquire). Keys are materialised per process from stripe patterns because kv.MemHash is process-seeded.",
